@@ -67,6 +67,7 @@ func genConfig(t *rapid.T) doc.Config {
 		EmptyKey:     true,
 		MergeKeyStr:  true,
 		EmptyMatrix:  true,
+		OddSources:   true,
 		UnknownSteps: rapid.IntRange(0, 3).Draw(t, "unknown") == 0,
 		BothCommands: true,
 		Signature:    true,
